@@ -9,6 +9,8 @@ from fractions import Fraction
 from hypothesis import strategies as st
 
 import numbergen as ng
+import json
+
 import param
 from vlib.core import Result
 
@@ -102,6 +104,15 @@ def _case(draw):
         for tt in draw(st.lists(st.integers(-3, 8), min_size=3, max_size=5, unique=True)):
             motif += [["jump", tt], ["read2", 2, 1]]
         ops[at:at] = motif
+    if draw(st.integers(0, 4)) == 0:
+        # values compared by identity (plain objects chosen by a Choice) behind a Dynamic parameter, read, then a pushed
+        # state with an excursion to another time, popped, inspected and read again
+        slot = draw(st.sampled_from([1, 3, 4, 6]))
+        gens[slot] = ["choice_obj", draw(st.integers(0, 1)), draw(st.integers(0, 1)), draw(st.integers(0, 2))]
+        i_, pn_ = slot // 2, slot % 2
+        at = draw(st.integers(0, len(ops)))
+        ops[at:at] = [["read", i_, pn_], ["pushpop", i_, [["jump", draw(st.integers(-3, 8))], ["read", i_, pn_]]],
+                      ["inspect", i_, pn_], ["read", i_, pn_]]
     # the very same generator object may also sit behind a second parameter, alone or inside `g + c`
     share = draw(st.one_of(st.none(), st.tuples(st.integers(0, 7), st.integers(0, 7), st.sampled_from([0, 0, 10]))))
     return {"gens": gens, "time_mode": draw(st.sampled_from(["int", "fraction", "float"])), "ops": ops,
@@ -246,6 +257,8 @@ def _run(case, res, tf):
             if gens[3] is gens[1]:
                 res.fail("C19.harness", "the late instance shares the class-level generator object")
             idents[3] = idents[1]
+            if "choice_obj" in json.dumps(specs[1]) and idents[1] is not None:
+                idents[3] = ("copy_of", idents[1])       # the copy chooses among copies of the objects: compared by identity
             insts.append(o)
             res.label("instance_with_a_copy_of_the_class_level_generator")
         else:
